@@ -104,7 +104,10 @@ fn judge_tracked(case: &Case, tally: &mut Tally) -> Verdict {
                     return Some(Verdict::fail("changes", format!("after {:?}: {}", rec.f, m)));
                 }
                 let cols = rec.got.cols;
-                if rec.got.col == cols && !(rec.left_alt && rec.stale_primary) && rec.exp.col != cols {
+                // (where the statements leave the cursor open - after an invalid DECSTBM - a
+                // wrap-pending column that was already there before the step is legitimate)
+                let unspecified_and_was_pending = rec.eff.cursor_unspecified && rec.pre.col == rec.pre.cols;
+                if rec.got.col == cols && !(rec.left_alt && rec.stale_primary) && rec.exp.col != cols && !unspecified_and_was_pending {
                     return Some(Verdict::fail(
                         "pending-col",
                         format!("after {:?} the cursor column equals cols ({}) although no print parked it there (expected column {})", rec.f, cols, rec.exp.col),
